@@ -1,6 +1,9 @@
 import Chess.Lemmas.AlphaBeta
 import Chess.Lemmas.AlphaBetaClamp
 import Chess.Model.Uci
+import Chess.Lemmas.FnsEquiv.Move
+import Chess.Lemmas.FnsEquiv.Piece
+import Chess.Lemmas.FnsEquiv.Search
 
 /-!
 # C09 — pruning and move ordering never change the search result
@@ -117,3 +120,13 @@ end Chess.Props.C09
 #print axioms Chess.Props.C09.pruned_equals_exhaustive_clamped
 #print axioms Chess.Props.C09.pruned_equals_exhaustive_inside
 #print axioms Chess.Props.C09.hypotheses_checkable
+
+/-! ### Translation tie (C09.T)
+`tools/translate.py` regenerates `Chess/Gen/Fns.lean` from the Rust text of the leaf functions on every run (a
+parser, not patterns); the theorems below — proved in `Chess/Lemmas/FnsEquiv/*` and re-checked by the kernel whenever
+the generated term changes — say that the TRANSLATED code equals the hand-written model this file's theorems are
+about, for the ordering key (`move_score`) and the selection of capture-search moves (`Move::is_tactical_move`). A rewrite of the Rust text that keeps the meaning leaves them true; one that changes it breaks the
+theorem named after the function. -/
+#print axioms Chess.FnsEquiv.Move_is_tactical_move_eq
+#print axioms Chess.FnsEquiv.move_score_eq
+#print axioms Chess.FnsEquiv.PieceType_material_value_eq
